@@ -256,6 +256,48 @@ def latency_kill(n: int, who: int, h: int) -> bool:
     return hung not in live and len(live) == n and set(arb.WORKERS) == set(live)
 
 
+def murder_reap_race(n: int, who: int, die: int, h: int, k: int) -> bool:
+    """
+    pre: 2 <= n <= CASE["n"] and 0 <= who < n and 0 <= die < n and who != die
+    pre: 0 <= h <= 10 and 0 <= k <= CASE["kmax"]
+    post: __return__
+    """
+    # a worker exits (SIGCHLD -> reap_workers closes its heartbeat file) at an arbitrary clock read - in particular
+    # between murder_workers' snapshot of the pool and its look at that worker's file.  The master must keep running, the
+    # hung worker is still aborted on time, the dead one is replaced.
+    n = pick(n, 2, CASE["n"])
+    who, die = pick(who, 0, n - 1), pick(die, 0, n - 1)
+    if who == die:
+        return True
+    h, k = pick(h, 0, 10), pick(k, 0, CASE["kmax"])
+    T = CASE["timeout"]
+    K = KS.Kernel(budget=T + 8)
+    K.hang = {who: h}
+    K.stubborn = {who}
+    K.clock_deaths = {k: die}
+    arb = mk_arbiter(K, n, timeout=T)
+    undo = KS.install(A, K)
+    A.sock = ns("A.sock", close_sockets=lambda l, u=True: None)
+    try:
+        try:
+            arb.run()
+        except KS.LoopBudget:
+            pass
+        except SystemExit:
+            return False                  # "Unhandled exception in main loop": the whole server went down
+    finally:
+        undo()
+    pids = list(K.order)
+    hung = pids[who]
+    seq = [(ev[2], ev[3]) for ev in K.events if ev[0] == "kill" and ev[1] == hung]
+    if not seq or seq[0][0] != int(signal.SIGABRT):
+        return False
+    if seq[0][1] < h + T * 10 or seq[0][1] > h + T * 10 + 12:
+        return False
+    live = [p for p in K.order if K.procs.get(p) == "alive"]
+    return pids[die] not in live and set(arb.WORKERS) == set(live) and not K.zombies()
+
+
 def latency_twin(n: int, who: int, h: int, stubborn: bool) -> bool:
     """
     pre: 1 <= n <= CASE["n"] and 0 <= who < n
@@ -265,6 +307,84 @@ def latency_twin(n: int, who: int, h: int, stubborn: bool) -> bool:
     if not (n == 2 and who == 1 and h == 7):
         return True
     return not latency(n, who, h, stubborn)
+
+
+# ---- 2b. the worker side of an abort: SIGABRT arriving while a request is being handled -----------------------------------------
+def abort_in_request(stage: int, nconn: int) -> bool:
+    """
+    pre: 0 <= stage <= 2 and 1 <= nconn <= 3
+    post: __return__
+    """
+    # the real Worker.handle_abort runs (as a signal handler does) inside the frame that is executing when SIGABRT
+    # arrives: in the application, or in the worker's own send.  The worker must not go back to serving: it either leaves
+    # through SystemExit or its loop ends before another connection is accepted ("aborted ... and replaced").
+    from engine.stubs.recsock import RecSock
+    stage, nconn = pick(stage, 0, 2), pick(nconn, 1, 3)
+    REQ = b"GET /a HTTP/1.1\r\nHost: h\r\n\r\n"
+    calls = []
+    aborted = []
+
+    def abort():
+        if not aborted:
+            aborted.append(1)
+            w.handle_abort(signal.SIGABRT, None)
+
+    def app(environ, start_response):
+        calls.append(1)
+        if stage == 0:
+            abort()
+        start_response("200 OK", [("Content-Length", "2")])
+        if stage == 1:
+            abort()
+        return [b"ok"]
+    cfg = W.make_cfg()
+    w = W.sync_worker(cfg, app)
+    clients = [RecSock([REQ]) for _ in range(nconn)]
+    if stage == 2:
+        clients[0].hooks = {"send": lambda s_: abort()}
+    pending = list(clients)
+    accepts_after = [0]
+
+    class Listener(RecSock):
+        def accept(self_):
+            if aborted:
+                accepts_after[0] += 1
+            if not pending:
+                raise OSError(errno.EAGAIN, "again")
+            return pending.pop(0), ("10.0.0.9", 1000)
+    lst = Listener()
+    w.sockets = [lst]
+    w.PIPE = [90, 91]
+    w.wait_fds = [lst, 90]
+    w.tmp = SimpleNamespace(notify=lambda: None)
+    w.timeout = 1.0
+    selects = [0]
+
+    def select(r, w_, x, timeout):
+        selects[0] += 1
+        if selects[0] > 4:
+            raise KS.LoopBudget()
+        return ([lst], [], [])
+    saved = S.select, S.os, S.util
+    S.select = ns("S.select", select=select)
+    S.os = ns("S.os", getppid=lambda: 1, read=lambda fd, n: b"")
+    S.util = ns("S.util", close_on_exec=lambda fd: None, close=saved[2].close, reraise=saved[2].reraise)
+    left = None
+    try:
+        try:
+            w.run_for_one(w.timeout)
+            left = "loop ended"
+        except SystemExit:
+            left = "exit"
+        except KS.LoopBudget:
+            left = None
+    finally:
+        S.select, S.os, S.util = saved
+    if not aborted:
+        return True
+    if left is None:
+        return False                       # still in its accept loop after having been aborted
+    return len(calls) == 1 and accepts_after[0] == 0
 
 
 # ---- 3. worker side: heartbeat gaps -----------------------------------------------------------------------------------
@@ -499,6 +619,12 @@ OBLIGATIONS = [
     Ob("C11.latency", "latency", cases={"quick": [{"n": 2, "timeout": 2}, {"n": 2, "timeout": 2, "noisy": True}],
                                         "thorough": [{"n": 3, "timeout": 2}, {"n": 2, "timeout": 3}, {"n": 3, "timeout": 2, "noisy": True}]},
        timeout=900, bound="run() loop, 1..2 (thorough 3) workers, one stops heartbeating at a symbolic instant 0..3 s, timeout 2 s (3 s)"),
+    Ob("C11.murder_reap_race", "murder_reap_race", cases={"quick": [{"n": 2, "timeout": 2, "kmax": 16}], "thorough": [{"n": 3, "timeout": 2, "kmax": 24}]},
+       timeout=900, bound="2 (thorough 3) workers, one hangs at 0..1 s, another dies at any of the master's first 17 (25) clock reads "
+                          "(SIGCHLD handled right there), timeout 2 s"),
+    Ob("C11.abort_in_request", "abort_in_request", timeout=300,
+       bound="sync worker, 1..3 queued connections, the real handle_abort invoked inside the application (before / after "
+             "start_response) or inside the first send"),
     Ob("C11.latency.twin", "latency_twin", cases=[{"n": 2, "timeout": 2}], expect="refute", timeout=300),
     Ob("C11.latency_kill", "latency_kill", cases={"quick": [{"n": 2, "timeout": 2}], "thorough": [{"n": 3, "timeout": 2}]},
        timeout=900, bound="as latency, the hung worker also ignores SIGABRT: KILL on the next scan, reaped, replaced"),
